@@ -350,11 +350,12 @@ uint32_t DNS::compose_name(const uint8_t* ptr, char* out_ptr) const {
         if (*ptr == 0) {
             break;
         }
-        if (pointer_counter++ > 30){
-            throw dns_decompression_pointer_loops();
-        }
         // It's an offset
         if (((*ptr & 0xc0) == 0xc0)) {
+            // Only pointers can make us loop, labels always move forward
+            if (pointer_counter++ > 30){
+                throw dns_decompression_pointer_loops();
+            }
             if (TINS_UNLIKELY(ptr + sizeof(uint16_t) > end)) {
                 throw malformed_packet();
             }
